@@ -117,14 +117,11 @@ class LoaderTable:
         patt, node, _ = self.entries[idx[0]]
         m = re.fullmatch(patt, name)
         ev = _LoaderEval(self, name, m, stack)
-        if isinstance(node, ast.Lambda):
-            params = [a.arg for a in node.args.args]
-            ev.bind_params(params)
-            val = ev.ev(node.body)
-        else:
-            params = [a.arg for a in node.args.args]
-            ev.bind_params(params)
-            val = ev.run_body(node.body)
+        params = [a.arg for a in node.args.args]
+        nd = len(node.args.defaults)
+        dflt = dict(zip(params[len(params) - nd:], node.args.defaults)) if nd else {}
+        ev.bind_params(params, dflt)
+        val = ev.ev(node.body) if isinstance(node, ast.Lambda) else ev.run_body(node.body)
         return dict(value=val, raw=ev.raw, halos=ev.halos, frees=ev.frees, loader=idx[0], requested=name,
                     impure=ev.impure, promo=ev.promo)
 
@@ -195,10 +192,15 @@ class _LoaderEval:
             self.env, self.alias, self.pm, self.praw, self.phalos = saved
         return (r,)
 
-    def bind_params(self, params):
-        if len(params) != 3:
+    def bind_params(self, params, defaults=None):
+        """(m, raw, halos) plus optional parameters with defaults (lambda m, raw, halos, unit=box: ...):
+        the loaders are called with three arguments, so extra parameters always take their default."""
+        defaults = defaults or {}
+        if len(params) < 3 or any(p not in defaults for p in params[3:]):
             raise AnalysisError('loader does not take (m, raw, halos)')
-        self.pm, self.praw, self.phalos = params
+        self.pm, self.praw, self.phalos = params[:3]
+        for p in params[3:]:
+            self.env[p] = self.ev(defaults[p])
 
     def kind(self, n):
         if isinstance(n, ast.Constant):
